@@ -78,6 +78,7 @@ class Sim:
         self.trace = trace
         self.io_log = {0: [], 1: []}     # per endpoint: inputs/outputs for the model correspondence
         self.eps = []
+        self.pre_deliver = None          # optional observer called with (dst, datagram) before delivery
 
     # ---- plumbing
     def _patch(self):
@@ -200,6 +201,8 @@ class Sim:
             return False
         idx %= len(q)
         data = q[idx] if keep else q.pop(idx)
+        if self.pre_deliver is not None:
+            self.pre_deliver(dst, data)
         self.io_log[dst].append(("in", data))
         await self.guard(dst, self.eps[dst]._handle_data(data))
         await self.drain()
